@@ -86,6 +86,18 @@ pub struct PeSpec {
     pub gate: u32,
 }
 
+/// The run is paused with `dispatch_events_until(pause_ns)`; a message is put onto flat gate `gate` of module `m` for
+/// the time `sim_time() + delay_ns` (0: the very instant the paused runtime reports).
+#[derive(Serialize, Deserialize, Clone, Debug, PartialEq, Eq, Hash, Default)]
+pub struct Inject {
+    pub pause_ns: u64,
+    pub delay_ns: u64,
+    pub m: u32,
+    pub gate: u32,
+}
+
+pub const INJ_SITE: usize = 0x1d0;
+
 #[derive(Serialize, Deserialize, Clone, Debug, PartialEq, Eq, Hash, Default)]
 pub struct ModSpec {
     pub name: String,
@@ -196,6 +208,9 @@ pub struct NetProgram {
     /// tasks capture a lease whose destructor consults the global view of the simulation
     #[serde(default)]
     pub leases: bool,
+    /// messages the driver injects from outside (`Runtime::add_message_onto`) while the run is paused
+    #[serde(default)]
+    pub injections: Vec<Inject>,
     /// extra top-level nodes built from des's own module blocks, each holding a token in its task / state:
     /// 1 = AsyncFn::new, 2 = AsyncFn::failable, 3 = AsyncFn::io + require_join, 4 = HandlerFn,
     /// 5 = AsyncFn::new whose handler hands every message to a freshly spawned worker task, awaits it and logs the
@@ -824,6 +839,8 @@ pub struct NetResult {
     /// user code of an earlier simulation of this process ran during this one
     pub foreign: bool,
     pub block_log: Vec<(u64, u8, u32)>,
+    /// absolute time of every injected message (program order; u64::MAX = not injected)
+    pub injected_at: Vec<u64>,
 }
 
 pub fn sanitize_order(prog: &NetProgram) -> Vec<usize> {
@@ -922,6 +939,9 @@ pub struct RunOpts {
     pub collect_gate_info: bool,
     /// C13 twin run: a scripted panic is replaced by "stop here and ignore everything from now on"
     pub twin: bool,
+    /// instead of pausing the run, the messages of `NetProgram::injections` are put into the event set before the run
+    /// starts, for these absolute times (one per injection, in program order)
+    pub inject_before_start: Option<Vec<u64>>,
 }
 
 thread_local! {
@@ -972,6 +992,7 @@ pub fn run_net(prog: &NetProgram, opts: &RunOpts) -> NetResult {
     SILENT.with(|s| s.borrow_mut().clear());
     crate::asy::reset_run();
 
+    let injected_at: RefCell<Vec<u64>> = RefCell::new(Vec::new());
     let outcome = std::panic::catch_unwind(std::panic::AssertUnwindSafe(|| {
         let mut build = BuildLog::default();
         let mut sim = Sim::new(());
@@ -1231,6 +1252,51 @@ pub fn run_net(prog: &NetProgram, opts: &RunOpts) -> NetResult {
             drop(rt);
             return (build, None, false);
         }
+        let inj_gate = |rt: &Runtime<Sim<()>>, j: &Inject| -> Option<GateRef> {
+            let m = j.m as usize % nmod.max(1);
+            let f = &flat[m];
+            if f.is_empty() {
+                return None;
+            }
+            let (name, _, pos) = &f[j.gate as usize % f.len()];
+            rt.app.get(&ObjectPath::from(module_path(&prog, m).as_str())).and_then(|r| r.gate(name, *pos))
+        };
+        let inj_msg = |i: usize, j: &Inject| {
+            let uid = uid_of(j.m as usize % nmod.max(1), INJ_SITE, i & 0x3ff, 0);
+            Message::default().kind(1).src(uid_to_src(uid))
+        };
+        if let Some(times) = &opts.inject_before_start {
+            let mut rt = rt;
+            for (i, j) in prog.injections.iter().enumerate().take(8) {
+                let Some(t) = times.get(i).copied().filter(|t| *t != u64::MAX) else { continue };
+                if let Some(g) = inj_gate(&rt, j) {
+                    rt.add_message_onto(g, inj_msg(i, j), SimTime::from_duration(Duration::from_nanos(t)));
+                    injected_at.borrow_mut().push(t);
+                }
+            }
+            let result = rt.run();
+            return (build, Some(result), true);
+        }
+        if !prog.injections.is_empty() && prog.late_links.is_empty() {
+            // stepped: pause, put a message onto a gate from outside, continue
+            let mut rt = rt;
+            rt.start();
+            let mut inj: Vec<(usize, Inject)> = prog.injections.iter().cloned().enumerate().take(8).collect();
+            inj.sort_by_key(|(_, j)| j.pause_ns);
+            let mut at = vec![u64::MAX; prog.injections.len().min(8)];
+            for (i, j) in &inj {
+                rt.dispatch_events_until(SimTime::from_duration(Duration::from_nanos(j.pause_ns)));
+                if let Some(g) = inj_gate(&rt, j) {
+                    let t = rt.sim_time().as_nanos() as u64 + j.delay_ns;
+                    rt.add_message_onto(g, inj_msg(*i, j), SimTime::from_duration(Duration::from_nanos(t)));
+                    at[*i] = t;
+                }
+            }
+            *injected_at.borrow_mut() = at;
+            rt.dispatch_all();
+            let result = rt.finish();
+            return (build, Some(result), true);
+        }
         if prog.late_links.is_empty() {
             let result = rt.run();
             return (build, Some(result), true);
@@ -1326,6 +1392,7 @@ pub fn run_net(prog: &NetProgram, opts: &RunOpts) -> NetResult {
     if let Some(c) = ctx {
         res.foreign = c.foreign;
         res.block_log = c.block_log;
+        res.injected_at = injected_at.into_inner();
         res.trace = c.trace;
         res.ledger = c.ledger.report();
     }
